@@ -55,7 +55,7 @@ RULE = (
     "swaps or by uniformly random permutation are accepted exactly when the "
     "independent precedence graph is acyclic, the result then being feasible, "
     "complete and realising exactly those sequences; otherwise "
-    "ValidationError; each call runs under a 20 s alarm. Kind 'benchmark': "
+    "ValidationError; seq(S) with one entry dropped (an operation left out) must be refused with ValidationError; each call runs under a 20 s alarm. Kind 'benchmark': "
     "load_benchmark_instance / load_all_benchmark_instances against the JSON "
     "file read independently (5 fixed names + generated ones). Kind 'generated': "
     "an instance made by GeneralInstanceGenerator (generated parameters, name "
@@ -547,6 +547,24 @@ def schedule_case(case, ctx):
         got = [[s.job_id for s in lst] for lst in res.schedule]
         ctx.check(got == perm, "sequences-not-realised", f"asked for {perm}, schedule has {got}")
         ctx.count("sequences_accepted")
+    # sequences that leave an operation out admit no schedule of the instance
+    nonempty = [i for i, s in enumerate(seqs) if s]
+    if nonempty:
+        pick = case["swaps"][0][0] if case["swaps"] else 0
+        short = [list(s) for s in seqs]
+        short[nonempty[pick % len(nonempty)]].pop()
+        try:
+            res = with_alarm(20, lambda: Schedule.from_job_sequences(instance, [list(s) for s in short]))
+        except ValidationError:
+            ctx.count("truncated_sequences_rejected")
+        except Alarm:
+            ctx.fail("hang", f"from_job_sequences did not return within 20 s for {short}")
+        else:
+            ctx.fail(
+                "accepted-truncated-sequences",
+                f"job sequences {short} leave an operation out (complete ones: {seqs}) but a schedule was returned "
+                f"(complete: {res.is_complete()})",
+            )
     ctx.check(fp.schedule(sched) == original, "schedule-modified", "the original schedule changed")
     ctx.label(*gen.inst_labels(inst))
     ctx.label("sequences=" + ("cyclic" if not ok else "same" if perm == seqs else "other-acyclic"))
